@@ -3,6 +3,7 @@ package main
 import (
 	"fmt"
 	"go/constant"
+	"go/token"
 	"go/types"
 	"math/big"
 	"strings"
@@ -24,6 +25,7 @@ type Scope struct {
 	pkg   *types.Package
 	err   error
 	depth int
+	qdepth int
 }
 
 func (sc *Scope) fail(format string, a ...interface{}) *sv {
@@ -139,6 +141,17 @@ func (sc *Scope) unify(a, b *sv) (*Val, *Val) {
 		return a.v, sc.typed(b, a.v.T)
 	}
 	return a.v, b.v
+}
+
+func (sc *Scope) revealed(name string) bool {
+	fr := sc.fr
+	if fr == nil || fr.ft == nil {
+		return false
+	}
+	if c := fr.ft.topCon; c != nil && c.Reveal[name] {
+		return true
+	}
+	return false
 }
 
 func (sc *Scope) evalBool(e *SExpr) Term {
@@ -298,15 +311,18 @@ func (sc *Scope) eval(e *SExpr) *sv {
 		if len(ls) != 1 {
 			return sc.fail("binder type %s not scalar", e.BT)
 		}
-		ft.c.n++
-		name := fmt.Sprintf("%s!q%d", e.Name, ft.c.n)
+		name := ft.c.BoundVar(e.Name)
 		n := sc.child()
+		n.qdepth = sc.qdepth + 1
 		n.vars[e.Name] = &sv{v: &Val{T: t, L: []Term{{ls[0].Sort, name}}}}
 		body := n.evalBool(e.Args[0])
 		if n.err != nil && sc.err == nil {
 			sc.err = n.err
 		}
-		return boolVal(Term{SBool, fmt.Sprintf("(%s ((%s %s)) %s)", e.Op, name, ls[0].Sort, body.T)})
+		if sc.qdepth > 0 {
+			return boolVal(Term{SBool, fmt.Sprintf("(%s ((%s %s)) %s)", e.Op, name, ls[0].Sort, body.T)})
+		}
+		return boolVal(ft.c.Quant(e.Op == "exists", name, ls[0].Sort, body))
 	case "ite":
 		c := sc.evalBool(e.Args[0])
 		a, b := sc.unify(sc.eval(e.Args[1]), sc.eval(e.Args[2]))
@@ -640,6 +656,36 @@ func (sc *Scope) call(e *SExpr) *sv {
 			return &sv{v: &Val{T: rt, L: []Term{parts[0]}}}
 		}
 		return &sv{v: &Val{T: rt, L: []Term{app(SBV(8*nb), "concat", parts...)}}}
+	case "mulOverflows", "addOverflows":
+		a, b := sc.unify(sc.eval(e.Args[0]), sc.eval(e.Args[1]))
+		w, _, ok := isIntType(a.T)
+		if !ok {
+			return sc.fail("%s on non-integers", name)
+		}
+		za := Term{SBV(2 * w), fmt.Sprintf("((_ zero_extend %d) %s)", w, a.L[0].T)}
+		zb := Term{SBV(2 * w), fmt.Sprintf("((_ zero_extend %d) %s)", w, b.L[0].T)}
+		lim := bvConst(2*w, new(big.Int).Lsh(big.NewInt(1), uint(w)))
+		_ = zb
+		if name == "addOverflows" {
+			return boolVal(app(SBool, "bvuge", app(SBV(2*w), "bvadd", za, zb), lim))
+		}
+		if !sc.revealed("mulOverflows") {
+			fn := fmt.Sprintf("mulOverflows%d", w)
+			ft.c.addPre(fn, fmt.Sprintf("(declare-fun %s ((_ BitVec %d) (_ BitVec %d)) Bool)", fn, w, w))
+			return boolVal(app(SBool, fn, a.L[0], b.L[0]))
+		}
+		{
+			fn := fmt.Sprintf("mulOverflows%d", w)
+			ft.c.addPre(fn, fmt.Sprintf("(declare-fun %s ((_ BitVec %d) (_ BitVec %d)) Bool)", fn, w, w))
+			maxv := app(SBV(w), "bvnot", bvInt(w, 0))
+			def := mkAnd(mkNot(mkEq(b.L[0], bvInt(w, 0))), app(SBool, "bvugt", a.L[0], app(SBV(w), "bvudiv", maxv, b.L[0])))
+			ft.e.trust("mulOverflows(a,b) is defined as b != 0 && a > MAX/b; equivalence with the double-width product is solver-checked at 8/16 bits only")
+			ap := ft.c.Fresh("mulovf", SBool)
+			ft.c.Assume(ap, mkEq(ap, app(SBool, fn, a.L[0], b.L[0])))
+			ft.c.Assume(ap, mkEq(ap, def))
+			return boolVal(ap)
+		}
+
 	case "isNaN":
 		return boolVal(app(SBool, "fp.isNaN", sc.eval(e.Args[0]).v.L[0]))
 	case "isInf":
@@ -698,6 +744,48 @@ func (sc *Scope) call(e *SExpr) *sv {
 				return sc.fail("smt function %s: unknown return type %s", name, sf.Ret)
 			}
 			return &sv{v: &Val{T: rt, L: []Term{app(leavesOf(rt)[0].Sort, name, ts...)}}}
+		}
+		if sf.Opaque {
+			rt := sc.typeByName(sf.Ret)
+			if rt == nil || len(leavesOf(rt)) != 1 {
+				return sc.fail("opaque function %s: unsupported return type %s", name, sf.Ret)
+			}
+			var ts []Term
+			var sorts []string
+			for _, a := range args {
+				for _, l := range a.L {
+					ts = append(ts, l)
+					sorts = append(sorts, l.S)
+				}
+			}
+			rs := leavesOf(rt)[0].Sort
+			fn := "spec_" + name
+			ft.c.addPre(fn, fmt.Sprintf("(declare-fun %s (%s) %s)", fn, strings.Join(sorts, " "), rs))
+			apTerm := app(rs, fn, ts...)
+			if !sc.revealed(name) {
+				return &sv{v: &Val{T: rt, L: []Term{apTerm}}}
+			}
+			ap := ft.c.Fresh("ap_"+name, rs)
+			ft.c.Assume(ap, mkEq(ap, apTerm))
+			n := sc.child()
+			n.depth = sc.depth + 1
+			n.vars = map[string]*sv{}
+			n.res = nil
+			for i, p := range sf.Params {
+				n.vars[p.Name] = &sv{v: args[i]}
+			}
+			r := n.eval(sf.Body)
+			if n.err != nil && sc.err == nil {
+				sc.err = n.err
+			}
+			rv := r.v
+			if r.c != nil {
+				rv = sc.typed(r, rt)
+			}
+			if rv != nil && len(rv.L) == 1 && rv.L[0].S == rs {
+				ft.c.Assume(ap, mkEq(ap, rv.L[0]))
+			}
+			return &sv{v: &Val{T: rt, L: []Term{ap}}}
 		}
 		if sc.depth > 20 {
 			return sc.fail("spec function recursion too deep in %s", name)
@@ -783,6 +871,36 @@ func (fr *frame) resolver(li *loopInfo, over map[*ssa.Phi]*Val) func(string) *Va
 				}
 			}
 		}
+		// range loops: the key variable k denotes rangeindex+1 at the loop head (next index to process)
+		if li != nil {
+			for b := range li.body {
+				for _, in := range b.Instrs {
+					d, ok := in.(*ssa.DebugRef)
+					if !ok || d.IsAddr || d.Object() == nil || d.Object().Name() != name {
+						continue
+					}
+					bo, ok := d.X.(*ssa.BinOp)
+					if !ok || bo.Op != token.ADD {
+						continue
+					}
+					ph, ok := bo.X.(*ssa.Phi)
+					if !ok || ph.Block() != li.head || ph.Comment != "rangeindex" {
+						continue
+					}
+					var pv *Val
+					if over != nil {
+						pv = over[ph]
+					}
+					if pv == nil {
+						pv = fr.vals[ph]
+					}
+					if pv == nil {
+						continue
+					}
+					return &Val{T: ph.Type(), L: []Term{app(SIdx, "bvadd", pv.L[0], idxInt(1))}}
+				}
+			}
+		}
 		for _, p := range fr.fn.Params {
 			if p.Name() == name {
 				return fr.vals[p]
@@ -816,6 +934,9 @@ func (fr *frame) resolver(li *loopInfo, over map[*ssa.Phi]*Val) func(string) *Va
 }
 
 func (fr *frame) pkg() *types.Package {
+	if fr.fn == nil {
+		return fr.lemPkg
+	}
 	f := fr.fn
 	for f.Parent() != nil {
 		f = f.Parent()
